@@ -11,7 +11,7 @@ git -C /repo worktree add -q --detach $WT HEAD || exit 2
 cd $WT
 # demo files
 for f in $(cd $S && find . -name '*_test.go'); do mkdir -p $(dirname $f); cp $S/$f $f; done
-demo=$(python3 -c "import json;print(json.load(open('$S/meta.json'))['demo_cmd'])" | sed -E "s#/tmp/wt2?_C[0-9]+#$WT#g")
+demo=$(python3 -c "import json;print(json.load(open('$S/meta.json'))['demo_cmd'])" | sed -E "s#/tmp/wt[0-9]*_C[0-9]+#$WT#g")
 echo "demo: $demo" > $S/confirm.txt
 echo "repo HEAD: $(git -C /repo rev-parse --short HEAD)" >> $S/confirm.txt
 ( cd $WT && timeout 600 bash -c "$demo" ) > /tmp/confirm_$id.nopatch.log 2>&1; rc0=$?
